@@ -20,6 +20,7 @@ import (
 type DirectUDPClient struct {
 	info    zerocopy.UDPClientSessionInfo
 	session zerocopy.UDPClientSession
+	network string
 }
 
 // NewDirectUDPClient creates a new UDP client that makes no changes to the packets.
@@ -32,10 +33,10 @@ func NewDirectUDPClient(name, network string, mtu int, listenConfig conn.ListenC
 		},
 		session: zerocopy.UDPClientSession{
 			MaxPacketSize: zerocopy.MaxPacketSizeForAddr(mtu, netip.IPv4Unspecified()),
-			Packer:        NewDirectPacketClientPacker(network, mtu),
 			Unpacker:      DirectPacketClientUnpacker{},
 			Close:         zerocopy.NoopClose,
 		},
+		network: network,
 	}
 }
 
@@ -48,7 +49,10 @@ func (c *DirectUDPClient) Info() zerocopy.UDPClientInfo {
 
 // NewSession implements [zerocopy.UDPClient.NewSession].
 func (c *DirectUDPClient) NewSession(ctx context.Context) (zerocopy.UDPClientSessionInfo, zerocopy.UDPClientSession, error) {
-	return c.info, c.session, nil
+	// The packer caches the last resolved domain target, so each session needs its own.
+	session := c.session
+	session.Packer = NewDirectPacketClientPacker(c.network, c.info.MTU)
+	return c.info, session, nil
 }
 
 // ShadowsocksNoneUDPClient is a Shadowsocks none UDP client.
